@@ -313,6 +313,64 @@ pub fn sets(ctx: &Ctx) -> Vec<CaseSet> {
         }),
     ));
 
+    // nesting right up to the documented limit (128) with every kind of leaf at the bottom
+    let (tb8, cfg8) = (tb.clone(), cfg.clone());
+    out.push(CaseSet::new(
+        "at-the-nesting-limit",
+        ctx.size(160, 2_000),
+        Box::new(move |rep, rng, case| {
+            let depth = 120 + (case as usize % 8); // 120..=127 enclosing compounds
+            let leaf = match (case / 8) % 10 {
+                0 => Value::bytes(vec![1u8, 2, 3]),
+                1 => Value::bytes(Vec::<u8>::new()),
+                2 => Value::vector(Vec::<Value>::new()),
+                3 => Value::Null,
+                4 => Value::string("s"),
+                5 => Value::Char('c'),
+                6 => Value::keyword("k"),
+                7 => Value::from(1.5),
+                8 => Value::Nil,
+                _ => gen::gen_atom(rng, &cfg8, &tb8),
+            };
+            let mut v = leaf;
+            for i in 0..depth {
+                let _ = i;
+                v = match rng.below(4) {
+                    0 => Value::vector(vec![v]),
+                    1 => Value::list(vec![Value::symbol("a"), v]),
+                    // a dotted tail nests only when it is not itself a list
+                    2 if !matches!(v, Value::Cons(_) | Value::Null) => Value::cons(Value::symbol("a"), v),
+                    _ => Value::list(vec![v]),
+                };
+            }
+            // a dotted tail that is itself a list merges into the chain and does not nest: count
+            // the levels of the printed form (byte vectors are atoms)
+            fn nest(v: &Value) -> usize {
+                match v {
+                    Value::Cons(c) => {
+                        let mut m = 0;
+                        let mut tail = &Value::Null;
+                        for cell in c.iter() {
+                            m = m.max(nest(cell.car()));
+                            tail = cell.cdr();
+                        }
+                        1 + m.max(nest(tail))
+                    }
+                    Value::Vector(xs) => 1 + xs.iter().map(nest).max().unwrap_or(0),
+                    // `()` is read through the list parser and costs a level
+                    Value::Null => 1,
+                    _ => 0,
+                }
+            }
+            let max = nest(&v);
+            rep.max("max_textual_nesting", max as u64);
+            if max > 127 {
+                return;
+            }
+            check_value(rep, &v, rule, rng, "nesting-limit");
+        }),
+    ));
+
     // one atom far longer than any buffer the reader may recycle, followed by more atoms
     let (tb7, cfg7) = (tb.clone(), cfg.clone());
     let huge_max = ctx.size(200_000, 1_500_000) as usize;
